@@ -908,6 +908,27 @@ pub fn run(tier: &str, seed: u64, s: &mut Sink) {
         let perms = permutations(fs.len());
         emit_run(s, fs, &perms, "fixed", true);
     }
+    // duplicate initial timestamps under EVERY argument order (the duplicates are adjacent only after sorting):
+    // files whose final timestamp equals their initial one and that follow each other within 1 s, so that the
+    // duplicate check is the only refusal that applies
+    for n in [3usize, 4] {
+        for dup in 1..n {
+            let mut fs: Vec<FileD> = (0..n)
+                .map(|i| f(500 + i as u32, 500 + i as u32, if i % 2 == 0 { "mid" } else { "lz4" }, vec![e(1, 'g', i as u32, 1000 * i as u32)]))
+                .collect();
+            fs[dup].t0 = fs[0].t0;
+            fs[dup].t1 = fs[0].t1;
+            let perms = permutations(n);
+            emit_run(s, &fs, &perms, "refuse-duplicate-t0-all-orders", false);
+        }
+    }
+    // two runs under every argument order of three files
+    {
+        let mut fs: Vec<FileD> = (0..3).map(|i| f(700 + i as u32, 700 + i as u32, "mid", vec![e(1, 'g', i as u32, 5)])).collect();
+        fs[1].run = 9278;
+        let perms = permutations(3);
+        emit_run(s, &fs, &perms, "refuse-two-runs-all-orders", false);
+    }
     // (number of files, number of runs)
     let plan: &[(usize, usize)] = if thorough { &[(1, 40), (2, 30), (3, 20), (4, 12)] } else { &[(1, 2), (2, 2), (3, 2), (4, 1)] };
     let mut variant = r.below(1000);
